@@ -3,10 +3,24 @@
 From GenqlV Require Import Base.Prelude Base.Fmt Model.Compare Spec.OrderSpec.
 Local Open Scope Z_scope.
 
-Definition check (i : gval * gval) (o : Z) : N :=
-  let '(a, b) := i in
+(* fmt %v is a standard-library oracle: inside the class Base/Fmt.v models exactly the model's own
+   text is used; outside it (e.g. float32 0.1, whose shortest decimal is not its exact expansion) the
+   harness supplies Go's text of each operand and the number-vs-string rule is applied to that text *)
+Definition oracle_cmp (a b : gval) (ta tb : string) : option Z :=
+  match a, b with
+  | (GInt _ _ | GFloat _ _ _), GStr s => Some (str_cmp ta s)
+  | GStr s, (GInt _ _ | GFloat _ _ _) => Some (str_cmp s tb)
+  | _, _ => None
+  end.
+
+Definition check (i : gval * gval * (string * string)) (o : Z) : N :=
+  let '(a, b, (ta, tb)) := i in
   match Compare a b with
   | Ok z => code_of (z =? o) (spec_holds a b o)
-  | OutOfModel => 4%N
+  | OutOfModel =>
+      match oracle_cmp a b ta tb with
+      | Some z => if z =? o then 0%N else 3%N
+      | None => 4%N
+      end
   | _ => 1%N
   end.
